@@ -3,7 +3,8 @@
 Model-based differential: every generated history is applied to the reference model and, in lock-step, to
 {CSV, memory} x {auto_index on, off}; every probe compares search (sorted and unsorted), count, contains, get
 and select (through the database and through Measurement handles) with the model's matches, and the full
-contents are compared after every step.
+contents are compared after every step.  Histories come from two generators: Hypothesis lists of operations (state-dependent
+details resolved at execution time) and a Hypothesis RuleBasedStateMachine whose rules draw from Bundles of inserted points.
 """
 from .. import histcheck, qast
 
@@ -33,9 +34,26 @@ def probe_hook(ls, op):
 
 
 HOOKS = (probe_hook,)
-run_shard = histcheck.make_run_shard("query", classify, HOOKS)
+_list_shard = histcheck.make_run_shard("query", classify, HOOKS)
 replay = histcheck.make_replay(HOOKS)
 
 
+def run_shard(spec, ctx):
+    if spec.get("kind") == "stateful":
+        # second generator: a Hypothesis rule-based state machine whose rules draw from Bundles of inserted points
+        from .. import machine
+
+        v = machine.run(ctx, spec["n"], spec["steps"], HOOKS, classify)
+        if v is not None:
+            raise histcheck.minimize(v, ctx, HOOKS)
+        return
+    return _list_shard(spec, ctx)
+
+
 def shards(tier):
-    return histcheck.std_shards(tier, 300, 4000, bulk=4)
+    s = histcheck.std_shards(tier, 300, 4000, bulk=4)
+    if tier == "quick":
+        s[-1] = {"kind": "stateful", "n": 120, "steps": 25}
+    else:
+        s += [{"kind": "stateful", "n": 1500, "steps": 50} for _ in range(3)]
+    return s
